@@ -268,12 +268,32 @@ def run(ctx):
                 not any(t.label.startswith('local-callable') for m, node, t, st in locked_calls))
 
     # ---------------- C12.c producers
+    # enqueue sites: an append to a shared list field of the cassette; a call of the method that consists of such an append (the enqueue
+    # primitive); a call through a field of the recording that was given such a primitive at construction (a callback)
+    def is_append(n):
+        return isinstance(n, ast.Call) and isinstance(n.func, ast.Attribute) and n.func.attr == 'append' and self_attr(n.func.value) in shared
+    primitives = {m.name for m in cas.methods.values() if m not in flusher_side and m.params[1:] and
+                  any(is_append(n) and n.args and isinstance(n.args[0], ast.Name) and n.args[0].id in m.params for n in ast.walk(m.node))}
+    callbacks = set()
+    rinit = rec.methods.get('__init__')
+    if rinit is not None:
+        for n in ast.walk(rinit.node):
+            if isinstance(n, ast.Assign) and self_attr(n.targets[0]) and isinstance(n.value, ast.Name) and n.value.id in rinit.params:
+                if any(isinstance(x, ast.Call) and self_attr(x.func) == self_attr(n.targets[0]) for m2 in rec.methods.values() for x in ast.walk(m2.node)):
+                    callbacks.add(self_attr(n.targets[0]))
+
+    def is_enqueue(n):
+        if not isinstance(n, ast.Call):
+            return False
+        if self_attr(n.func) and (n.func.attr in primitives or n.func.attr in callbacks):
+            return True
+        return is_append(n) and bool(n.args)
     producers = []
     for c in (cas, rec):
         for m in c.methods.values():
-            if 'async_operation' in m.name:
+            if m.name in primitives or m in flusher_side or m.name == '__init__':
                 continue
-            if any(isinstance(n, ast.Call) and self_attr(n.func) and 'async_operation' in n.func.attr for n in ast.walk(m.node)):
+            if any(is_enqueue(n) for n in ast.walk(m.node)):
                 producers.append((c, m))
     if len(producers) < 3:
         raise AnalysisError('anchor-lost role=producer methods (found %s)' % [m.qualname for c, m in producers])
@@ -282,8 +302,9 @@ def run(ctx):
         # a deferred operation: lambda, or functools.partial(f, ...)
         return isinstance(a, ast.Lambda) or (isinstance(a, ast.Call) and norm(a.func).split('.')[-1] == 'partial')
     for c, m in producers:
-        enq = [n for n in ast.walk(m.node) if isinstance(n, ast.Call) and self_attr(n.func) and 'async_operation' in n.func.attr]
-        lam = [a for n in enq for a in n.args if deferred(a)]
+        enq = [n for n in ast.walk(m.node) if is_enqueue(n)]
+        from ..loader import expand_locals as _xl12
+        lam = [a for a in (_xl12(m.node, a0, depth=2) for n in enq for a0 in n.args) if deferred(a)]
         ok = len(enq) == 1 and len(lam) == 1
         why = ''
         if ok:
@@ -306,8 +327,10 @@ def run(ctx):
             if conds:
                 ok = False
                 why = 'enqueue only when `%s`' % ' and '.join(('' if p_ else 'not ') + norm(t_) for t_, p_ in conds)
+        lam_src = [x for n0 in ast.walk(m.node) if isinstance(n0, ast.Lambda) or (isinstance(n0, ast.Call) and norm(n0.func).split('.')[-1] == 'partial')
+                   for x in ast.walk(n0)]
         direct = [n for n in ast.walk(m.node) if isinstance(n, ast.Call) and isinstance(n.func, ast.Attribute) and 'wrapped' in norm(n.func.value)
-                  and not any(n is x for l in lam for x in ast.walk(l))]
+                  and not any(n is x for x in lam_src)]
         ok = ok and not direct
         cc.instance('%s: one enqueue of one closure over its own parameters; wrapped calls only inside it' % m.qualname, m.qualname, ok, detail=why)
         cc.evaluations += 1
